@@ -16,6 +16,15 @@ if len(sys.argv) > 4 and sys.argv[4] == "pair":
             "(0, 1, the exact maximum, one past a power of the radix); (5) rarely used public entry points and object kinds (less common chart "
             "types, notes slides, group shapes nested twice, OLE objects, movies, freeform builders, connectors, directory-form packages, "
             "packages written by other producers). Avoid the most obvious site for the property; previous rounds already covered those.")
+if len(sys.argv) > 4 and sys.argv[4] == "opt":
+    hint = (" Make each change look like something a maintainer would do ON PURPOSE and believe harmless: a performance optimisation (a cache, "
+            "memoisation, a lazy property, an early return, a fast path for the common case, hoisting a computation out of a loop), a tidy-up "
+            "refactor (merging two branches, re-ordering statements, replacing an explicit comparison by a truthiness or identity test, replacing "
+            "a loop by a comprehension / slice / regular expression, inlining or extracting a helper), a robustness fallback (catching an exception "
+            "and substituting a default), or a modernisation (another stdlib call with slightly different edge behaviour). The change must be "
+            "correct for everything the library's own writer produces in ordinary use and wrong only for a specific history, boundary value, "
+            "second use of the same object, or a state that only files from other producers contain. Avoid the sites the property's anchors name "
+            "first; earlier rounds covered them.")
 for l in open('/verif/properties.jsonl'):
     p = json.loads(l)
     if p['id'] == pid:
